@@ -284,6 +284,44 @@ def run(tier: str, seed: int) -> int:
     from . import jsontext_tie
     stats["json_text"] = jsontext_tie.phase(chk, random.Random(rng.randrange(10 ** 9)), 20 if tier == "quick" else 200,
                                             docs=True, texts=False)
+    # ---- a save kept IN MEMORY while the session goes on (quick-save slot): the document taken at a point and encoded at
+    # once must equal the same document encoded only after further play mutated lists / dicts in place ----
+    stats["quick_saves"] = 0
+    for k in range(20 if tier == "quick" else 200):
+        r = random.Random(rng.randrange(10 ** 9))
+        g = G.Gen(r, G.Profile(hooks=0.4, join=0.3, params=0.3, jumps=0.4, inplace=1.0, one_time=0.4, faults=0.0))
+        src = g.source()
+        try:
+            story = R.compile_story(src)
+        except Exception:
+            continue
+        recs, eng = R.run_history(story, [("choose_valid", r.randint(0, 5)) for _ in range(r.randint(0, 4))])
+        if eng is None:
+            continue
+        with C.quiet():
+            try:
+                slot = eng.save_state()
+                at_once = json.loads(json.dumps(slot))
+                for _ in range(r.randint(2, 6)):
+                    n_ch = len(eng.current().choices)
+                    if not n_ch:
+                        break
+                    try:
+                        eng.choose(r.randrange(n_ch))
+                    except Exception:  # noqa
+                        break
+                later = json.loads(json.dumps(slot))
+            except Exception:  # noqa
+                continue
+        stats["quick_saves"] += 1
+        chk.count(("quicksave", src), True)
+        a, b = strip_volatile(at_once), strip_volatile(later)
+        if a != b:
+            diff = [kk for kk in a if a[kk] != b.get(kk)]
+            chk.report("later-play-changed-save:" + ",".join(sorted(diff)),
+                       f"a save document kept in memory changed in {diff} while the session went on (it is loaded later as a "
+                       "quick-save: the loaded game would not be the saved one)", {"story_source": src})
+
     # ---- continuation with OBJECTS in the variables ----
     stats["object_continuations"] = object_continuation_phase(chk, rng, 12 if tier == "quick" else 120)
     chk.cov["programs"] = stats["save_points"]
@@ -348,6 +386,24 @@ class Tally:
         return self.count
 
 
+class Squad:
+    """custom serialisation whose save dict holds OTHER objects (a Card, and a list of Cards)"""
+
+    def __init__(self, lead, rest):
+        self.lead = lead
+        self.rest = rest
+
+    def to_save_dict(self):
+        return {"lead": self.lead, "rest": self.rest}
+
+    @classmethod
+    def from_save_dict(cls, d):
+        return cls(d["lead"], d["rest"])
+
+    def drill(self):
+        return self.lead.up() + sum(c.up() for c in self.rest)
+
+
 class Sealed:
     _fields = ("tag", "n")
 
@@ -387,13 +443,13 @@ def object_continuation_phase(chk, rng, n):
         for k in range(n):
             r = random.Random(rng.randrange(10 ** 9))
             mk = {"pack": "Pack('ann')", "card": f"Card({r.randint(1, 9)})", "coin": f"Coin('h', {r.randint(1, 9)})",
-                  "sealed": f"Sealed('t', {r.randint(0, 5)})", "wallet": f"Wallet({r.randint(0, 50)})", "inv": "Inventory(20)", "tally": "Tally()"}
+                  "sealed": f"Sealed('t', {r.randint(0, 5)})", "wallet": f"Wallet({r.randint(0, 50)})", "inv": "Inventory(20)", "tally": "Tally()", "squad": "Squad(Card(1), [Card(2), Card(3)])"}
             use = {"pack": "{pack.put(1)} {len(pack.things)} {pack.owner}", "card": "{card.up()} {card.rank}",
                    "coin": "{coin.twice()} {coin.face}", "sealed": "{sealed.bump()} {sealed.tag}",
-                   "wallet": "{wallet.spend(3)} {wallet.gold}", "inv": "{inv.add({'name': 'Rope', 'weight': 1})} {inv.current_weight}", "tally": "{tally()} {tally.count}"}
+                   "wallet": "{wallet.spend(3)} {wallet.gold}", "inv": "{inv.add({'name': 'Rope', 'weight': 1})} {inv.current_weight}", "tally": "{tally()} {tally.count}", "squad": "{squad.drill()} {squad.lead.rank}"}
             kinds = r.sample(sorted(mk), r.randint(2, 5))
             holder = r.choice(["", "list", "attr"])
-            lines = [f"from {modname} import Pack, Card, Coin, Sealed, Tally", "from bardic.stdlib.economy import Wallet",
+            lines = [f"from {modname} import Pack, Card, Coin, Sealed, Tally, Squad", "from bardic.stdlib.economy import Wallet",
                      "from bardic.stdlib.inventory import Inventory", "", ":: Start"]
             lines += [f"~ {kd} = {mk[kd]}" for kd in kinds]
             if holder == "list":
